@@ -21,6 +21,8 @@ inductive Ev
   | delete (field : String) (held : List String)
   | nilAssign (field : String) (held : List String)
   | assign (field : String) (held : List String)
+  | plainRead (field : String) (held : List String)   -- a field without a mutex that some method assigns
+  | plainWrite (field : String) (held : List String)
   | call (f : String) (held : List String)
   | deferCall (f : String) (held : List String)
   | ret (held : List String)
